@@ -89,6 +89,10 @@ def run_one(ctx, rng, cands, d, status):
     lines = gen_stream(rng, cands)
     final_nl = rng.random() < 0.7
     data = ('\n'.join(lines) + ('\n' if final_nl else '')).encode('utf-8')
+    # the lines the byte stream really has (an empty last element is no line)
+    lines = data.decode('utf-8').split('\n')
+    if lines and lines[-1] == '':
+        lines.pop()
     ref = []
     for p in reference(lines):
         ref += p.split('\n')
